@@ -230,6 +230,7 @@ macro_rules! plaintext_real {
                          "C02.plaintext.real.header_exact");
                 vcover!(true, "C02.plaintext.real.cover.ok");
             }
+            vcover!(r.is_err(), "C02.plaintext.real.cover.rejected");
         }
     };
 }
